@@ -356,6 +356,24 @@ def r08_4(ctx):
                      'every non-basis-function variable is precomputed in the constructor, including those defined in terms of an updatable input '
                      'field; the generated update() only rewrites the input\'s own slice, so the next assembly mixes new field values with stale '
                      'derived values (e.g. g = let(exp(f)*f) with f updatable, integrand (f + g) u v)')
+    # the same for PARAMETERS: the generated update_params() rewrites only the parameter's own slots of self.constants, so a
+    # variable defined in terms of a parameter (c = let(a*a + 1), CSE temporaries) must not be precomputed either -- unless
+    # update_params() recomputes the precomputed fields
+    up0 = ctx.prog.func(CG + '.AsmGenerator.generate_update_params')
+    recomputed_p = 'precompute' in src(up0.node)
+    roots = [s_ for s_ in own_nodes(da.node) if isinstance(s_, ast.Assign) and isinstance(s_.value, ast.ListComp)
+             and any(isinstance(c, ast.Call) and src(c.func) == 'isinstance' for c in ast.walk(s_.value))
+             and 'updatable' in src(s_.value)]
+    if roots:
+        covers_params = 'Parameter' in src(roots[0].value)
+        if covers_params or recomputed_p:
+            ctx.met('R08.4', da.qual, 'variables depending on a parameter: ' + ('excluded from precompute' if covers_params else 'recomputed by update_params()'),
+                    roots[0], 'a precomputed copy would go stale when update_params() rewrites the parameter slot')
+        else:
+            ctx.violated('R08.4', da.qual, src(roots[0])[:120], roots[0],
+                         'only descendants of updatable INPUT FIELDS are kept out of the precomputed set; a variable defined in terms of a '
+                         'parameter is precomputed by __init__, and the generated update_params() rewrites only the parameter\'s own slot: after '
+                         'update_params(a=3) the next assembly still uses the old value inside c = let(a*a + 1) (sum 5 instead of 10)')
     # update_params writes the same constants slots that __init__ fills through update_params
     up = ctx.prog.func(CG + '.AsmGenerator.generate_update_params')
     tt = src(up.node)
